@@ -104,6 +104,43 @@ static void setup_pairs(void)
 	}
 }
 
+/* the same key with its alg attribute set: configurations where the pinned algorithm comes from the key */
+static jwk_set_t *attr_set(pair_t *p)
+{
+	static jwk_set_t *cache[64];
+	int i = (int)(p - PAIRS);
+	if (!cache[i]) {
+		char *j = p->vk ? vk_jwk_text(p->vk, 0, tok_alg_names[p->alg], "kid-1") : vk_oct_jwk(p->oct, p->octlen, tok_alg_names[p->alg], "kid-1");
+		cache[i] = jwks_create(j);
+		free(j);
+	}
+	return cache[i];
+}
+static int keyonly_cb(jwt_t *jwt, jwt_config_t *cfg)
+{
+	(void)jwt;
+	cfg->key = cfg->ctx;
+	return 0;
+}
+/* how: 0 explicit alg with setkey, 1 alg from the key's attribute, 2 callback supplies the key (alg from its attribute) */
+static jwt_checker_t *pair_checker_how(pair_t *p, int how)
+{
+	jwt_checker_t *c = jwt_checker_new();
+	const jwk_item_t *it = jwks_item_get(attr_set(p), 0);
+	int rc = 0;
+	if (how == 1)
+		rc = jwt_checker_setkey(c, JWT_ALG_NONE, it);
+	else if (how == 2)
+		rc = jwt_checker_setcb(c, keyonly_cb, (void *)it);
+	else
+		rc = jwt_checker_setkey(c, p->alg, jwks_item_get(p->pub, 0));
+	if (rc) {
+		fprintf(stderr, "sigmut: checker configuration %d failed for %s/%s: %s\n", how, p->keyname, tok_alg_names[p->alg], jwt_checker_error_msg(c));
+		exit(2);
+	}
+	return c;
+}
+
 static jwt_checker_t *pair_checker(const pair_t *p)
 {
 	jwt_checker_t *c = jwt_checker_new();
@@ -410,6 +447,24 @@ static void mutate_adversarial(const pair_t *p, jwt_checker_t *c, const char *ba
 		OPENSSL_free(der);
 		free(in2);
 	}
+	/* alg-none downgrades: same payload, header none (and spellings), empty / garbage / original signature */
+	{
+		static const char *nh[] = { "{\"alg\":\"none\"}", "{\"alg\":\"none\",\"typ\":\"JWT\"}", "{\"alg\":\"None\"}", "{\"alg\":\"NONE\"}", "{\"typ\":\"JWT\"}", "{\"alg\":null}" };
+		for (unsigned i = 0; i < sizeof nh / sizeof *nh; i++) {
+			char *in2 = tok_signing_input(nh[i], PAYLOADS[1]);
+			char *m = malloc(strlen(in2) + strlen(t.seg[2]) + 8);
+			sprintf(m, "%s.", in2); emit(p, c, m, "alg-none-empty-signature");
+			sprintf(m, "%s", in2); emit(p, c, m, "alg-none-two-segments");
+			sprintf(m, "%s.AAAA", in2); emit(p, c, m, "alg-none-garbage-signature");
+			sprintf(m, "%s.%s", in2, t.seg[2]); emit(p, c, m, "alg-none-original-signature");
+			free(m);
+			free(in2);
+		}
+		/* the original header and payload with the signature removed */
+		char *m = malloc(ilen + 4);
+		memcpy(m, base, ilen); m[ilen] = '.'; m[ilen + 1] = 0; emit(p, c, m, "signature-stripped");
+		free(m);
+	}
 	long sl = t.declen[2];
 	rc_family_t f = rc_family(p->alg);
 	if (f == RC_FAM_ES) {
@@ -609,13 +664,19 @@ static void enumerate_c01(void)
 			vf_nontrivial_case();
 			flush_counts();
 		}
-		if (vf_case("%s/%s: adversarial assemblies", pn, an)) {
-			jwt_checker_t *c = pair_checker(p);
-			mutate_adversarial(p, c, p->tok_ref[0], emit_c01);
-			jwt_checker_free(c);
-			vf_nontrivial_case();
-			flush_counts();
-		}
+		for (int how = 0; how < 3; how++)
+			if (vf_case("%s/%s: adversarial assemblies, truncations and splices; checker configured by %s", pn, an,
+				    how == 0 ? "setkey(alg,key)" : how == 1 ? "setkey(none,key with alg attribute)" : "callback supplying the key")) {
+				jwt_checker_t *c = pair_checker_how(p, how);
+				judge(p, c, p->tok_ref[0], "base", 1);
+				mutate_adversarial(p, c, p->tok_ref[0], emit_c01);
+				mutate_signature(p, c, p->tok_ref[0], 2, emit_c01);
+				if (how)
+					mutate_splices(p, c, provider, emit_c01);
+				jwt_checker_free(c);
+				vf_nontrivial_case();
+				flush_counts();
+			}
 		/* d = 2 for three algorithms: pairs of segment-level operations */
 		if (vf_thorough && (p->alg == JWT_ALG_HS256 || (p->alg == JWT_ALG_ES256 && !strcmp(pn, "p256a")) || !strcmp(pn, "ed25519a"))) {
 			rt_t t;
